@@ -87,7 +87,7 @@ Ltac open_step H :=
   | match ?x with _ => _ end = Some _ => destruct x eqn:?; try discriminate H
   end;
   inversion H; subst; clear H;
-  unfold set_conn, set_srv, set_req in *; cbn [ph listen inpoll known cst inmap notified polled busy pend rs queue hand running stopped earlypoll] in *.
+  unfold set_aux, set_conn, set_srv, set_req in *; cbn [ph listen inpoll known cst inmap notified polled busy pend rs queue hand running stopped earlypoll rdbuf chk raced] in *.
 
 Ltac split_guards :=
   repeat match goal with
@@ -162,22 +162,29 @@ Record Safe (s : state) : Prop := {
   S_map : forall c, inmap s c = false -> cst s c = CClosed \/ cst s c = CNone;
   S_nomap : forall c, cst s c = CNone -> inmap s c = false;
   S_busy : forall c r, unanswered (rs s c r) = true -> In r (busy s c);
-  S_closed : forall c, cst s c = CClosed \/ cst s c = CNone -> busy s c = [];
-  S_lost : forall c r, rs s c r <> Lost;
+  S_none : forall c, cst s c = CNone -> busy s c = [] /\ rdbuf s c = None;
   S_queue : forall c r, In (c, r) (queue s) -> rs s c r = Queued;
-  S_hand : forall c r, hand s = Some (c, r) -> rs s c r = InHand
+  S_hand : forall c r, hand s = Some (c, r) -> rs s c r = InHand;
+  S_rd : forall c r, rdbuf s c = Some r -> rs s c r = InFlight /\ pend s c = None /\ (cst s c = COpen \/ cst s c = CClosed);
+  S_live : forall c, busy s c <> [] \/ rdbuf s c <> None -> inmap s c = true;
+  S_chk : forall c, chk s c = true -> inpoll s = true /\ In c (known s) /\ ph s <> SRun
 }.
 
 Lemma init_Safe : Safe init.
 Proof.
   constructor; cbn; intros; try discriminate; auto; try contradiction.
-  split; intros; [congruence | contradiction].
+  - split; intros; [congruence | contradiction].
+  - destruct H; congruence.
 Qed.
 
+Lemma nochk_false : forall s, nochk s = true -> forall c, In c (known s) -> chk s c = false.
+Proof.
+  unfold nochk. intros s H c Hc. rewrite forallb_forall in H. apply H in Hc. apply negb_true_iff in Hc. exact Hc.
+Qed.
 
 Lemma step_S_known : forall s l s', Safe s -> stepW s l = Some s' -> forall c, cst s' c <> CNone <-> In c (known s').
 Proof.
-  intros s l s' [J1 J2 J2' J3 J4 J5 J6 J7] H c0.
+  intros s l s' [J1 J2 J2' J3 J4 J6 J7 J8 J9 J10] H c0.
   open_step H; split_guards; upd_cases; try apply J1.
   all: match goal with |- _ <-> In ?c _ => pose proof (J1 c) as Hk; cbn [In]; intuition congruence end.
 Qed.
@@ -185,30 +192,30 @@ Qed.
 Lemma step_S_map : forall s l s', Safe s -> stepW s l = Some s' ->
   forall c, inmap s' c = false -> cst s' c = CClosed \/ cst s' c = CNone.
 Proof.
-  intros s l s' [J1 J2 J2' J3 J4 J5 J6 J7] H c0 Hm.
+  intros s l s' [J1 J2 J2' J3 J4 J6 J7 J8 J9 J10] H c0 Hm.
   open_step H; split_guards; upd_cases; try (apply J2; assumption); try discriminate; auto.
 Qed.
 
 Lemma step_S_nomap : forall s l s', Safe s -> stepW s l = Some s' ->
   forall c, cst s' c = CNone -> inmap s' c = false.
 Proof.
-  intros s l s' [J1 J2 J2' J3 J4 J5 J6 J7] H c0 Hm.
+  intros s l s' [J1 J2 J2' J3 J4 J6 J7 J8 J9 J10] H c0 Hm.
   open_step H; split_guards; upd_cases; try (apply J2'; assumption); try discriminate; auto.
 Qed.
 
-Lemma step_S_closed : forall s l s', Safe s -> stepW s l = Some s' ->
-  forall c, cst s' c = CClosed \/ cst s' c = CNone -> busy s' c = [].
+Lemma step_S_none : forall s l s', Safe s -> stepW s l = Some s' ->
+  forall c, cst s' c = CNone -> busy s' c = [] /\ rdbuf s' c = None.
 Proof.
-  intros s l s' [J1 J2 J2' J3 J4 J5 J6 J7] H c0 Hm.
-  open_step H; split_guards; upd_cases; try (apply J4; assumption); auto.
-  all: try (destruct Hm; congruence).
-  rewrite (J4 _ Hm). reflexivity.
+  intros s l s' [J1 J2 J2' J3 J4 J6 J7 J8 J9 J10] H c0 Hm.
+  open_step H; split_guards; upd_cases; try (apply J4; assumption); auto; try congruence; try discriminate.
+  all: try (destruct (J4 _ Hm) as [Hb Hr]; split; auto; try (rewrite Hb; reflexivity); congruence).
+  all: try (destruct (J8 _ _ ltac:(eassumption)) as [_ [_ [Hx | Hx]]]; congruence).
 Qed.
 
 Lemma step_S_busy : forall s l s', Safe s -> stepW s l = Some s' ->
   forall c r, unanswered (rs s' c r) = true -> In r (busy s' c).
 Proof.
-  intros s l s' [J1 J2 J2' J3 J4 J5 J6 J7] H c0 r0 Hu.
+  intros s l s' [J1 J2 J2' J3 J4 J6 J7 J8 J9 J10] H c0 r0 Hu.
   open_step H; split_guards; upd_cases; try (apply J3; assumption); try discriminate; cbn [In]; auto.
   all: try (apply J3; match goal with Hx : rs _ ?c ?r = _ |- context[rs _ ?c ?r] => rewrite Hx; reflexivity end).
   all: try (apply in_remove_nat; split; auto; fail).
@@ -217,20 +224,10 @@ Proof.
   - subst. apply J3. rewrite (J7 c r) by reflexivity. reflexivity.
 Qed.
 
-Lemma step_S_lost : forall s l s', Safe s -> stepW s l = Some s' -> forall c r, rs s' c r <> Lost.
-Proof.
-  intros s l s' [J1 J2 J2' J3 J4 J5 J6 J7] H c0 r0.
-  open_step H; split_guards; upd_cases; try apply J5; try discriminate.
-  destruct (cstate_eqb (cst s c) CClosed) eqn:E; [|discriminate].
-  apply cstate_eqb_eq in E.
-  assert (Hb : In r (busy s c)) by (apply J3; rewrite Heqb; reflexivity).
-  rewrite (J4 c) in Hb by auto. contradiction.
-Qed.
-
 Lemma step_S_queue : forall s l s', Safe s -> stepW s l = Some s' ->
   forall c r, In (c, r) (queue s') -> rs s' c r = Queued.
 Proof.
-  intros s l s' [J1 J2 J2' J3 J4 J5 J6 J7] H c0 r0 Hq.
+  intros s l s' [J1 J2 J2' J3 J4 J6 J7 J8 J9 J10] H c0 r0 Hq.
   open_step H; split_guards.
   all: try (apply in_remove_req in Hq; destruct Hq as [Hq Hne]).
   all: try (apply in_app_iff in Hq; cbn [In] in Hq; destruct Hq as [Hq | [Hq | []]]; [| inversion Hq; subst ]).
@@ -242,11 +239,45 @@ Qed.
 Lemma step_S_hand : forall s l s', Safe s -> stepW s l = Some s' ->
   forall c r, hand s' = Some (c, r) -> rs s' c r = InHand.
 Proof.
-  intros s l s' [J1 J2 J2' J3 J4 J5 J6 J7] H c0 r0 Hq.
+  intros s l s' [J1 J2 J2' J3 J4 J6 J7 J8 J9 J10] H c0 r0 Hq.
   open_step H; split_guards; try discriminate.
   all: try (inversion Hq; subst).
   all: upd_cases; try (apply J7; assumption); auto; try congruence.
   all: try (pose proof (J7 _ _ Hq); congruence).
+Qed.
+
+Lemma step_S_rd : forall s l s', Safe s -> stepW s l = Some s' ->
+  forall c r, rdbuf s' c = Some r -> rs s' c r = InFlight /\ pend s' c = None /\ (cst s' c = COpen \/ cst s' c = CClosed).
+Proof.
+  intros s l s' [J1 J2 J2' J3 J4 J6 J7 J8 J9 J10] H c0 r0 Hq.
+  open_step H; split_guards; upd_cases; try (apply J8; assumption); try discriminate; auto.
+  all: try (destruct (J8 _ _ Hq) as [Ha [Hb Hc]]; repeat split; auto; try congruence; destruct Hc; congruence).
+  all: try (inversion Hq; subst; repeat split; auto; congruence).
+  - destruct (J8 _ _ Hq) as [Ha _]. apply existsb_req_in in H0. pose proof (J6 _ _ H0). congruence.
+  - subst. destruct (J8 _ _ Hq) as [Ha _]. pose proof (J7 c r eq_refl). congruence.
+Qed.
+
+Lemma step_S_live : forall s l s', Safe s -> stepW s l = Some s' ->
+  forall c, busy s' c <> [] \/ rdbuf s' c <> None -> inmap s' c = true.
+Proof.
+  intros s l s' [J1 J2 J2' J3 J4 J6 J7 J8 J9 J10] H c0 Hq.
+  open_step H; split_guards; upd_cases; try (apply J9; assumption); auto.
+  all: try (apply J9; right; congruence).
+  all: try (apply J9; destruct Hq as [Hq | Hq]; [left; intro Hb; rewrite Hb in Hq; cbn in Hq; contradiction | right; auto]; fail).
+  all: try (destruct (inmap s c) eqn:E; auto; destruct (J2 c E); congruence).
+  all: try (exfalso; destruct Hq as [Hq | Hq]; [congruence|];
+            destruct (rdbuf s c) as [r1|] eqn:Er; [destruct (J8 _ _ Er) as [_ [_ [Hx | Hx]]]; congruence | congruence]).
+Qed.
+
+Lemma step_S_chk : forall s l s', Safe s -> stepW s l = Some s' ->
+  forall c, chk s' c = true -> inpoll s' = true /\ In c (known s') /\ ph s' <> SRun.
+Proof.
+  intros s l s' [J1 J2 J2' J3 J4 J6 J7 J8 J9 J10] H c0 Hq.
+  open_step H; split_guards; upd_cases; try (apply J10; assumption); try discriminate; cbn [In]; auto.
+  all: try (destruct (J10 _ Hq) as [Ha [Hb Hc]]; repeat split; auto; congruence).
+  all: try (split; [assumption|]; split; [apply J1; congruence|]; destruct (ph s); cbn in *; congruence).
+  all: try (exfalso; destruct (J10 _ Hq) as [_ [Hb _]];
+            match goal with Hn : nochk _ = true |- _ => rewrite (nochk_false _ Hn _ Hb) in Hq; discriminate end).
 Qed.
 
 Lemma step_Safe : forall s l s', Safe s -> stepW s l = Some s' -> Safe s'.
@@ -256,10 +287,12 @@ Proof.
   - eapply step_S_map; eauto.
   - eapply step_S_nomap; eauto.
   - eapply step_S_busy; eauto.
-  - eapply step_S_closed; eauto.
-  - eapply step_S_lost; eauto.
+  - eapply step_S_none; eauto.
   - eapply step_S_queue; eauto.
   - eapply step_S_hand; eauto.
+  - eapply step_S_rd; eauto.
+  - eapply step_S_live; eauto.
+  - eapply step_S_chk; eauto.
 Qed.
 
 Lemma reachable_Safe : forall s, reachable s -> Safe s.
@@ -267,29 +300,82 @@ Proof.
   apply reachable_ind'. apply init_Safe. intros. eapply step_Safe; eauto.
 Qed.
 
-(* C12, clause 1: a closed connection has no request that was read and not answered, and no response was ever
-   lost to a closed socket. *)
-Theorem answered_before_close : forall s, reachable s ->
-  forall c, cst s c = CClosed -> forall r, unanswered (rs s c r) = false /\ rs s c r <> Lost.
+(* the ghost flag only ever goes up *)
+Lemma raced_mono : forall s l s', stepW s l = Some s' -> raced s' = false -> raced s = false.
 Proof.
-  intros s Hr c Hc r. destruct (reachable_Safe s Hr) as [J1 J2 J2' J3 J4 J5 J6 J7]. split; [|apply J5].
-  destruct (unanswered (rs s c r)) eqn:E; auto.
-  apply J3 in E. rewrite (J4 c) in E by auto. contradiction.
+  intros s l s' H Hr. open_step H; auto.
+  all: apply orb_false_iff in Hr; destruct Hr; auto.
 Qed.
 
-(* the closing steps themselves: the step is only taken with numInvoke = 0, and then nothing of c is outstanding *)
-Theorem close_step_all_answered : forall s l s' c, reachable s -> stepW s l = Some s' ->
-  cst s c <> CClosed -> cst s' c = CClosed ->
-  (l = LPollClose c \/ l = LRecvClose c) /\ busy s c = [] /\ forall r, unanswered (rs s c r) = false /\ rs s' c r = rs s c r.
+(* What holds as long as neither window was hit: a connection is closed (and tested by the poller) only with
+   numInvoke = 0 and nothing read-and-uncounted; nothing is ever Lost. *)
+Record NoRace (s : state) : Prop := {
+  Q_closed : forall c, cst s c = CClosed -> busy s c = [] /\ rdbuf s c = None;
+  Q_lost : forall c r, rs s c r <> Lost;
+  Q_chk : forall c, chk s c = true -> busy s c = [] /\ rdbuf s c = None
+}.
+
+Lemma init_NoRace : NoRace init.
+Proof. constructor; cbn; intros; try discriminate; auto. Qed.
+
+Lemma step_NoRace : forall s l s', Safe s -> NoRace s -> stepW s l = Some s' -> raced s' = false -> NoRace s'.
 Proof.
-  intros s l s' c Hr H Hn Hc. destruct (reachable_Safe s Hr) as [J1 J2 J2' J3 J4 J5 J6 J7].
-  open_step H; split_guards; upd_cases; try contradiction; try discriminate.
-  all: (split; [auto|]; split; [assumption|]; intros r0; split; [|reflexivity]).
+  intros s l s' [J1 J2 J2' J3 J4 J6 J7 J8 J9 J10] [Q1 Q2 Q3] H Hr. constructor.
+  - intros c0 Hc. open_step H; split_guards; upd_cases; try (apply Q1; assumption); try discriminate; auto.
+    all: try congruence.
+    all: try (destruct (Q1 _ Hc) as [Ha Hb]; try congruence; rewrite Ha; split; auto; fail).
+    all: try (apply Q3; assumption).
+    split; auto. destruct (rdbuf s c) as [r1|] eqn:Er; auto.
+    destruct (J8 _ _ Er) as [_ [_ [Hx | Hx]]]; congruence.
+  - intros c0 r0. open_step H; split_guards; upd_cases; try apply Q2; try discriminate.
+    destruct (cstate_eqb (cst s c) CClosed) eqn:E; [|discriminate].
+    apply cstate_eqb_eq in E. destruct (Q1 _ E) as [Hb _].
+    assert (Hin : In r (busy s c)) by (apply J3; match goal with Hx : rs s c r = _ |- _ => rewrite Hx end; reflexivity).
+    rewrite Hb in Hin. contradiction.
+  - intros c0 Hc. open_step H; split_guards; upd_cases; try (apply Q3; assumption); try discriminate; auto.
+    all: try (rewrite Hc, orb_true_r in Hr; discriminate).
+    all: try (destruct (Q3 _ Hc) as [Ha Hb]; try congruence; rewrite Ha; split; auto; fail).
+    all: try (apply orb_false_iff in Hr; destruct Hr as [_ Hr]; split; auto;
+              match goal with |- rdbuf ?s ?c = None => destruct (rdbuf s c); [discriminate Hr | reflexivity] end).
+  Qed.
+
+Lemma reachable_NoRace : forall s, reachable s -> raced s = false -> NoRace s.
+Proof.
+  apply (reachable_ind' (fun s => raced s = false -> NoRace s)).
+  - intros _. apply init_NoRace.
+  - intros s l s' Hr IH H Hrc. eapply step_NoRace; eauto.
+    + apply reachable_Safe; auto.
+    + apply IH. eapply raced_mono; eauto.
+Qed.
+
+(* C12, clause 1, for every run in which neither two-instruction window was hit (ghost raced = false): a closed
+   connection has no request that was read — counted or not — and not answered, and no response was ever lost to a
+   closed socket. *)
+Theorem answered_before_close : forall s, reachable s -> raced s = false ->
+  forall c, cst s c = CClosed -> rdbuf s c = None /\ forall r, unanswered (rs s c r) = false /\ rs s c r <> Lost.
+Proof.
+  intros s Hr Hrc c Hc. destruct (reachable_Safe s Hr) as [J1 J2 J2' J3 J4 J6 J7 J8 J9 J10].
+  destruct (reachable_NoRace s Hr Hrc) as [Q1 Q2 Q3]. destruct (Q1 c Hc) as [Hb Hd].
+  split; auto. intros r. split; [|apply Q2].
+  destruct (unanswered (rs s c r)) eqn:E; auto.
+  apply J3 in E. rewrite Hb in E. contradiction.
+Qed.
+
+(* the closing steps themselves: one of the two close sites, taken with numInvoke = 0 and nothing read-and-uncounted *)
+Theorem close_step_all_answered : forall s l s' c, reachable s -> stepW s l = Some s' -> raced s' = false ->
+  cst s c <> CClosed -> cst s' c = CClosed ->
+  (l = LPollClose c \/ l = LRecvClose c) /\ busy s c = [] /\ rdbuf s c = None /\
+  forall r, unanswered (rs s c r) = false /\ rs s' c r = rs s c r.
+Proof.
+  intros s l s' c Hr H Hrc Hn Hc.
+  assert (Hr' : reachable s') by (eapply reachable_step; eauto).
+  destruct (reachable_NoRace s' Hr' Hrc) as [Q1 _ _]. destruct (Q1 c Hc) as [Hb' Hd'].
+  destruct (reachable_Safe s Hr) as [J1 J2 J2' J3 J4 J6 J7 J8 J9 J10].
+  open_step H; split_guards; upd_cases; try contradiction; try discriminate; try congruence.
+  all: (split; [auto|]; split; [assumption|]; split; [assumption|]; intros r0; split; [|reflexivity]).
   all: match goal with |- ?u = false => destruct u eqn:E; auto end; apply J3 in E;
        match goal with Hb : busy _ _ = [] |- _ => rewrite Hb in E end; contradiction.
 Qed.
-
-
 
 (* ---------------------------------------------------------------------------------------------------------- *)
 (* Pipeline invariant: where a request that was read and is not answered sits. *)
@@ -314,7 +400,7 @@ Qed.
 Lemma step_P_run : forall s l s', Safe s -> Pipe s -> stepW s l = Some s' ->
   forall c r, In (c, r) (running s') -> rs s' c r = Running.
 Proof.
-  intros s l s' [J1 J2 J2' J3 J4 J5 J6 J7] [K1 K2 K3 K4 K5 K6 K7 K8] H c0 r0 Hq.
+  intros s l s' [J1 J2 J2' J3 J4 J6 J7 J8 J9 J10] [K1 K2 K3 K4 K5 K6 K7 K8] H c0 r0 Hq.
   open_step H; split_guards.
   all: try (apply in_remove_req in Hq; destruct Hq as [Hq Hne]).
   all: try (cbn [In] in Hq; destruct Hq as [Hq | Hq]; [inversion Hq; subst|]).
@@ -326,7 +412,7 @@ Qed.
 Lemma step_P_queued : forall s l s', Safe s -> Pipe s -> stepW s l = Some s' ->
   forall c r, rs s' c r = Queued -> In (c, r) (queue s').
 Proof.
-  intros s l s' [J1 J2 J2' J3 J4 J5 J6 J7] [K1 K2 K3 K4 K5 K6 K7 K8] H c0 r0 Hq.
+  intros s l s' [J1 J2 J2' J3 J4 J6 J7 J8 J9 J10] [K1 K2 K3 K4 K5 K6 K7 K8] H c0 r0 Hq.
   open_step H; split_guards.
   all: upd_cases; try (apply K2; assumption); auto; try congruence.
   all: try (apply in_app_iff; cbn [In]; auto; fail).
@@ -337,7 +423,7 @@ Qed.
 Lemma step_P_inhand : forall s l s', Safe s -> Pipe s -> stepW s l = Some s' ->
   forall c r, rs s' c r = InHand -> hand s' = Some (c, r).
 Proof.
-  intros s l s' [J1 J2 J2' J3 J4 J5 J6 J7] [K1 K2 K3 K4 K5 K6 K7 K8] H c0 r0 Hq.
+  intros s l s' [J1 J2 J2' J3 J4 J6 J7 J8 J9 J10] [K1 K2 K3 K4 K5 K6 K7 K8] H c0 r0 Hq.
   open_step H; split_guards.
   all: upd_cases; try (apply K3; assumption); auto; try congruence.
   all: try (match goal with Hx : (if ?b then _ else _) = InHand |- _ => destruct b; discriminate end).
@@ -347,17 +433,18 @@ Qed.
 Lemma step_P_pend : forall s l s', Safe s -> Pipe s -> stepW s l = Some s' ->
   forall c r, rs s' c r = Pending -> pend s' c = Some r.
 Proof.
-  intros s l s' [J1 J2 J2' J3 J4 J5 J6 J7] [K1 K2 K3 K4 K5 K6 K7 K8] H c0 r0 Hq.
+  intros s l s' [J1 J2 J2' J3 J4 J6 J7 J8 J9 J10] [K1 K2 K3 K4 K5 K6 K7 K8] H c0 r0 Hq.
   open_step H; split_guards.
   all: upd_cases; try (apply K4; assumption); auto; try congruence.
   all: try (match goal with Hx : (if ?b then _ else _) = Pending |- _ => destruct b; discriminate end).
   all: try (pose proof (K4 _ _ Hq); congruence).
+  all: try (pose proof (K4 _ _ Hq) as Hk; match goal with Hx : rdbuf _ ?c = Some _ |- _ => destruct (J8 _ _ Hx) as [_ [Hy _]] end; congruence).
 Qed.
 
 Lemma step_P_w0 : forall s l s', Safe s -> Pipe s -> stepW s l = Some s' ->
   W = 0 -> forall c r, rs s' c r <> Pending /\ rs s' c r <> Queued /\ rs s' c r <> InHand.
 Proof.
-  intros s l s' [J1 J2 J2' J3 J4 J5 J6 J7] [K1 K2 K3 K4 K5 K6 K7 K8] H HW c0 r0.
+  intros s l s' [J1 J2 J2' J3 J4 J6 J7 J8 J9 J10] [K1 K2 K3 K4 K5 K6 K7 K8] H HW c0 r0.
   open_step H; split_guards.
   all: upd_cases; try (apply K5; assumption); auto; try congruence.
   all: try (repeat split; discriminate).
@@ -368,7 +455,7 @@ Qed.
 Lemma step_P_wn : forall s l s', Safe s -> Pipe s -> stepW s l = Some s' ->
   W <> 0 -> forall c r, rs s' c r <> Spawned.
 Proof.
-  intros s l s' [J1 J2 J2' J3 J4 J5 J6 J7] [K1 K2 K3 K4 K5 K6 K7 K8] H HW c0 r0.
+  intros s l s' [J1 J2 J2' J3 J4 J6 J7 J8 J9 J10] [K1 K2 K3 K4 K5 K6 K7 K8] H HW c0 r0.
   open_step H; split_guards.
   all: upd_cases; try (apply K6; assumption); auto; try congruence.
   all: try discriminate.
@@ -383,7 +470,7 @@ Qed.
 Lemma step_P_stop : forall s l s', Safe s -> Pipe s -> stepW s l = Some s' ->
   stopped s' = true -> early = false -> listen s' <> 0 /\ forall c, In c (known s') -> inmap s' c = false.
 Proof.
-  intros s l s' [J1 J2 J2' J3 J4 J5 J6 J7] [K1 K2 K3 K4 K5 K6 K7 K8] H Hst He.
+  intros s l s' [J1 J2 J2' J3 J4 J6 J7 J8 J9 J10] [K1 K2 K3 K4 K5 K6 K7 K8] H Hst He.
   open_step H; split_guards;
     try (destruct (K7 Hst eq_refl) as [K7a K7b]);
     try (split; [assumption|]; intros c0 Hc0; upd_cases; auto; fail);
@@ -399,7 +486,7 @@ Qed.
 Lemma step_P_running : forall s l s', Safe s -> Pipe s -> stepW s l = Some s' ->
   forall c r, rs s' c r = Running -> In (c, r) (running s').
 Proof.
-  intros s l s' [J1 J2 J2' J3 J4 J5 J6 J7] [K1 K2 K3 K4 K5 K6 K7 K8] H c0 r0 Hq.
+  intros s l s' [J1 J2 J2' J3 J4 J6 J7 J8 J9 J10] [K1 K2 K3 K4 K5 K6 K7 K8] H c0 r0 Hq.
   open_step H; split_guards.
   all: upd_cases; try (apply K8; assumption); auto; try congruence.
   all: try (cbn [In]; auto; fail).
@@ -433,16 +520,25 @@ Qed.
 Definition pipeline_label (l : label) : Prop :=
   match l with LEnqueue _ _ | LTake _ _ | LStart _ _ | LFinish _ _ => True | _ => False end.
 
-Lemma unanswered_conn_live : forall s, Safe s -> forall c r, unanswered (rs s c r) = true ->
+(* a request that is counted and not answered keeps its connection in the table — race or not *)
+Lemma unanswered_in_table : forall s, Safe s -> forall c r, unanswered (rs s c r) = true ->
+  In c (known s) /\ inmap s c = true.
+Proof.
+  intros s [J1 J2 J2' J3 J4 J6 J7 J8 J9 J10] c r Hu.
+  apply J3 in Hu.
+  assert (Hm : inmap s c = true). { apply J9. left. intro Hb. rewrite Hb in Hu. contradiction. }
+  split; auto. apply J1. intro Hn. rewrite (J2' c Hn) in Hm. discriminate.
+Qed.
+
+Lemma unanswered_conn_live : forall s, Safe s -> NoRace s -> forall c r, unanswered (rs s c r) = true ->
   (cst s c = COpen \/ cst s c = CExited) /\ In c (known s) /\ inmap s c = true.
 Proof.
-  intros s [J1 J2 J2' J3 J4 J5 J6 J7] c r Hu.
-  apply J3 in Hu.
-  assert (Hc : cst s c = COpen \/ cst s c = CExited).
-  { destruct (cst s c) eqn:E; auto; rewrite (J4 c) in Hu by auto; contradiction. }
-  split; auto. split.
-  - apply J1. destruct Hc; congruence.
-  - destruct (inmap s c) eqn:E; auto. destruct (J2 c E); destruct Hc; congruence.
+  intros s HS [Q1 Q2 Q3] c r Hu. destruct (unanswered_in_table s HS c r Hu) as [Hk Hm].
+  destruct HS as [J1 J2 J2' J3 J4 J6 J7 J8 J9 J10].
+  split; auto. apply J3 in Hu.
+  destruct (cst s c) eqn:E; auto.
+  - destruct (J4 c E) as [Hb _]. rewrite Hb in Hu. contradiction.
+  - destruct (Q1 c E) as [Hb _]. rewrite Hb in Hu. contradiction.
 Qed.
 
 Theorem read_requests_progress : early = false -> (0 < cap)%N ->
@@ -452,8 +548,8 @@ Theorem read_requests_progress : early = false -> (0 < cap)%N ->
 Proof.
   intros He Hcap s Hr Halive c r Hu.
   pose proof (reachable_Safe s Hr) as HS. pose proof (reachable_Pipe s Hr) as HP.
-  destruct (unanswered_conn_live s HS c r Hu) as [Hc [Hk Hm]].
-  destruct HS as [J1 J2 J2' J3 J4 J5 J6 J7]. destruct HP as [K1 K2 K3 K4 K5 K6 K7 K8].
+  destruct (unanswered_in_table s HS c r Hu) as [Hk Hm].
+  destruct HS as [J1 J2 J2' J3 J4 J6 J7 J8 J9 J10]. destruct HP as [K1 K2 K3 K4 K5 K6 K7 K8].
   assert (Hns : stopped s = false).
   { destruct (stopped s) eqn:E; auto. destruct (K7 eq_refl He) as [_ Hg]. rewrite (Hg c Hk) in Hm. discriminate. }
   destruct (running s) as [|[c1 r1] ru] eqn:Hrun.
@@ -494,7 +590,7 @@ Definition rank (x : rstate) : nat :=
 Lemma step_rank_mono : forall s l s', reachable s -> stepW s l = Some s' ->
   forall c r, rank (rs s c r) <= rank (rs s' c r).
 Proof.
-  intros s l s' Hr H c0 r0. destruct (reachable_Safe s Hr) as [J1 J2 J2' J3 J4 J5 J6 J7].
+  intros s l s' Hr H c0 r0. destruct (reachable_Safe s Hr) as [J1 J2 J2' J3 J4 J6 J7 J8 J9 J10].
   open_step H; split_guards; upd_cases; auto;
     try (match goal with Hx : rs _ ?c ?r = _ |- context[rs _ ?c ?r] => rewrite Hx; cbn; lia end).
   - rewrite (J6 c r) by (apply existsb_req_in; assumption). cbn. lia.
@@ -505,7 +601,7 @@ Qed.
 Lemma pipeline_step_advances : forall s l s', reachable s -> stepW s l = Some s' -> pipeline_label l ->
   exists c r, unanswered (rs s c r) = true /\ rank (rs s c r) < rank (rs s' c r).
 Proof.
-  intros s l s' Hr H Hp. destruct (reachable_Safe s Hr) as [J1 J2 J2' J3 J4 J5 J6 J7].
+  intros s l s' Hr H Hp. destruct (reachable_Safe s Hr) as [J1 J2 J2' J3 J4 J6 J7 J8 J9 J10].
   open_step H; split_guards; try contradiction; exists c, r; rewrite upd2_eq.
   all: try (match goal with Hx : rs _ ?c ?r = _ |- context[rs _ ?c ?r] => rewrite Hx; cbn; split; [reflexivity | lia] end).
   - rewrite (J6 c r) by (apply existsb_req_in; assumption). cbn. split; [reflexivity | lia].
@@ -515,36 +611,56 @@ Qed.
 
 (* C12, clause "Shutdown returns once all connections have drained": the drained return happens only when every
    connection ever accepted is closed, and then nothing that was read is unanswered *)
-Theorem drained_return_sound : forall s s', reachable s -> stepW s LPollReturn = Some s' ->
-  ph s' = SRetDrained /\ (forall c, In c (known s') -> cst s' c = CClosed) /\
-  (forall c r, unanswered (rs s' c r) = false).
+Lemma drained_return_all_closed : forall s s', reachable s -> stepW s LPollReturn = Some s' ->
+  ph s' = SRetDrained /\ forall c, In c (known s') -> cst s' c = CClosed.
 Proof.
-  intros s s' Hr H. pose proof (reachable_Safe s Hr) as HS. destruct HS as [J1 J2 J2' J3 J4 J5 J6 J7].
+  intros s s' Hr H. destruct (reachable_Safe s Hr) as [J1 J2 J2' J3 J4 J6 J7 J8 J9 J10].
+  remember LPollReturn as l eqn:Hl.
+  open_step H; try discriminate Hl; split_guards. split; [reflexivity|].
+  intros c Hc. assert (Ha : all_closed s = true) by assumption.
+  unfold all_closed in Ha. rewrite forallb_forall in Ha. specialize (Ha c Hc).
+  apply orb_true_iff in Ha. destruct Ha as [Ha | Ha].
+  - apply negb_true_iff in Ha. destruct (J2 c Ha) as [Hx | Hx]; auto. apply J1 in Hc. contradiction.
+  - apply cstate_eqb_eq in Ha. exact Ha.
+Qed.
+
+Theorem drained_return_sound : forall s s', reachable s -> raced s = false -> stepW s LPollReturn = Some s' ->
+  ph s' = SRetDrained /\ (forall c, In c (known s') -> cst s' c = CClosed) /\
+  (forall c r, unanswered (rs s' c r) = false) /\ (forall c, rdbuf s' c = None).
+Proof.
+  intros s s' Hr Hrc H. pose proof (reachable_Safe s Hr) as HS. pose proof (reachable_NoRace s Hr Hrc) as HQ.
+  destruct HS as [J1 J2 J2' J3 J4 J6 J7 J8 J9 J10].
   remember LPollReturn as l eqn:Hl.
   open_step H; try discriminate Hl; split_guards.
   assert (Hall : forall c, In c (known s) -> cst s c = CClosed).
-  { intros c Hc. unfold all_closed in H0. rewrite forallb_forall in H0. specialize (H0 c Hc).
-    apply orb_true_iff in H0. destruct H0 as [H0 | H0].
-    - apply negb_true_iff in H0. destruct (J2 c H0) as [Hx | Hx]; auto. apply J1 in Hc. contradiction.
-    - apply cstate_eqb_eq in H0. exact H0. }
-  split; [reflexivity|]. split; [exact Hall|].
-  intros c r. destruct (unanswered (rs s c r)) eqn:E; auto.
-  destruct (unanswered_conn_live s (reachable_Safe s Hr) c r E) as [Hc [Hk _]].
-  rewrite (Hall c Hk) in Hc. destruct Hc; discriminate.
+  { intros c Hc. assert (Ha : all_closed s = true) by assumption.
+    unfold all_closed in Ha. rewrite forallb_forall in Ha. specialize (Ha c Hc).
+    apply orb_true_iff in Ha. destruct Ha as [Ha | Ha].
+    - apply negb_true_iff in Ha. destruct (J2 c Ha) as [Hx | Hx]; auto. apply J1 in Hc. contradiction.
+    - apply cstate_eqb_eq in Ha. exact Ha. }
+  split; [reflexivity|]. split; [exact Hall|]. split.
+  - intros c r. destruct (unanswered (rs s c r)) eqn:E; auto.
+    destruct (unanswered_conn_live s (reachable_Safe s Hr) HQ c r E) as [Hc [Hk _]].
+    rewrite (Hall c Hk) in Hc. destruct Hc; discriminate.
+  - intros c. destruct (rdbuf s c) as [r|] eqn:E; auto.
+    assert (Hm : inmap s c = true) by (apply J9; right; congruence).
+    assert (Hk : In c (known s)). { apply J1. intro Hn. rewrite (J2' c Hn) in Hm. discriminate. }
+    destruct HQ as [Q1 _ _]. destruct (Q1 c (Hall c Hk)) as [_ Hx]. congruence.
 Qed.
 
-(* ... and it is available as soon as they are: with every connection closed, the poller's next tick returns *)
-Theorem drained_return_enabled : forall s, is_down (ph s) = true -> all_closed s = true ->
+(* ... and it is available as soon as they are: with every connection closed (and the poller between two
+   connections of its sweep), the poller's next tick returns *)
+Theorem drained_return_enabled : forall s, is_down (ph s) = true -> all_closed s = true -> nochk s = true ->
   exists s', runW s (if inpoll s then [LPollReturn] else [LPollBegin; LPollReturn]) = Some s' /\ ph s' = SRetDrained.
 Proof.
-  intros s Hd Ha. assert (Hal : alive (ph s) = true) by (destruct (ph s); cbn in *; congruence).
+  intros s Hd Ha Hn. assert (Hal : alive (ph s) = true) by (destruct (ph s); cbn in *; congruence).
   destruct (inpoll s) eqn:Hi.
-  - cbn [run]. unfold step. rewrite Hal, Hd, Hi, Ha. cbn. eexists. split; reflexivity.
+  - cbn [run]. unfold step. rewrite Hal, Hd, Hi, Ha, Hn. cbn. eexists. split; reflexivity.
   - cbn [run]. unfold step at 1. rewrite Hal, Hd, Hi. cbn [negb andb].
-    unfold step. cbn [ph listen inpoll known cst inmap notified polled busy pend rs queue hand running stopped earlypoll].
+    unfold step. cbn [ph listen inpoll known cst inmap notified polled busy pend rs queue hand running stopped earlypoll rdbuf chk raced].
     rewrite Hal, Hd. cbn [negb andb].
-    unfold all_closed in *. cbn [ph listen inpoll known cst inmap notified polled busy pend rs queue hand running stopped earlypoll].
-    rewrite Ha. eexists. split; reflexivity.
+    unfold all_closed, nochk in *. cbn [ph listen inpoll known cst inmap notified polled busy pend rs queue hand running stopped earlypoll rdbuf chk raced].
+    rewrite Ha, Hn. eexists. split; reflexivity.
 Qed.
 
 (* the context ends Shutdown from any point of the drain *)
@@ -580,7 +696,7 @@ Qed.
 Lemma step_N_two : forall s l s', Safe s -> Notif s -> stepW s l = Some s' ->
   listen s' = 2 -> forall c, inmap s' c = true -> cst s' c <> CClosed -> notified s' c = true.
 Proof.
-  intros s l s' [J1 J2 J2' J3 J4 J5 J6 J7] [M0 M1 M2 M3 M4] H Hl c0 Hm Hc.
+  intros s l s' [J1 J2 J2' J3 J4 J6 J7 J8 J9 J10] [M0 M1 M2 M3 M4] H Hl c0 Hm Hc.
   open_step H; split_guards; upd_cases; try (apply M2; assumption); try congruence; try discriminate.
   - destruct (listen s =? 1) eqn:E.
     + rewrite Hm. destruct (cstate_eqb (cst s c0) CClosed) eqn:E2.
@@ -613,14 +729,18 @@ Qed.
 Lemma step_N_closed : forall s l s', Safe s -> Notif s -> stepW s l = Some s' ->
   earlypoll s' = false -> returned (ph s') = false -> forall c, cst s' c = CClosed -> notified s' c = true.
 Proof.
-  intros s l s' [J1 J2 J2' J3 J4 J5 J6 J7] [M0 M1 M2 M3 M4] H He Hp c0 Hc.
+  intros s l s' [J1 J2 J2' J3 J4 J6 J7 J8 J9 J10] [M0 M1 M2 M3 M4] H He Hp c0 Hc.
   open_step H; split_guards; try discriminate Hp; upd_cases;
     try (apply M1; solve [assumption | match goal with Hx : ph s = _ |- _ => rewrite Hx; reflexivity end]);
     try congruence; try discriminate.
   - apply orb_false_iff in He. destruct He as [He1 He2].
     destruct (listen s =? 1); [rewrite (M1 He1 Hp c0 Hc); reflexivity | apply M1; assumption].
-  - apply M2; auto; congruence.
-  - apply M2; auto; congruence.
+  - apply M2; try congruence.
+    + apply M3; auto. apply (J10 c). assumption.
+    + destruct (inmap s c) eqn:E; auto. destruct (J2 c E); congruence.
+  - apply M2; try congruence.
+    + apply M3; auto. apply (J10 c). assumption.
+    + destruct (inmap s c) eqn:E; auto. destruct (J2 c E); congruence.
   - rewrite Hp, orb_false_r in *. apply M2; try congruence.
     + eapply M4; eauto.
     + destruct (inmap s c) eqn:E; auto. destruct (J2 c E); congruence.
@@ -680,7 +800,7 @@ Theorem drained_return_notified : forall s s', reachable s -> stepW s LPollRetur
   earlypoll s' = false -> forall c, In c (known s') -> notified s' c = true.
 Proof.
   intros s s' Hr H He c Hk.
-  destruct (drained_return_sound s s' Hr H) as [_ [Hall _]].
+  destruct (drained_return_all_closed s s' Hr H) as [_ Hall].
   pose proof (Hall c Hk) as Hc.
   pose proof (reachable_Notif s Hr) as HN.
   remember LPollReturn as l eqn:Hl.
@@ -697,11 +817,16 @@ End Proofs.
    Shutdown can only end through its context. *)
 
 Lemma stuck_step : forall W cap early s l s' c r, reachable W cap early s ->
-  stopped s = true -> rs s c r = Queued -> step W cap early s l = Some s' ->
-  stopped s' = true /\ rs s' c r = Queued.
+  stopped s = true -> rs s c r = Queued -> chk s c = false -> cst s c <> CClosed ->
+  step W cap early s l = Some s' ->
+  stopped s' = true /\ rs s' c r = Queued /\ chk s' c = false /\ cst s' c <> CClosed.
 Proof.
-  intros W cap early s l s' c0 r0 Hr Hst Hq H. destruct (reachable_Safe W cap early s Hr) as [J1 J2 J2' J3 J4 J5 J6 J7].
-  open_step H; split_guards; upd_cases; auto; try congruence.
+  intros W cap early s l s' c0 r0 Hr Hst Hq Hck Hcl H.
+  destruct (reachable_Safe W cap early s Hr) as [J1 J2 J2' J3 J4 J6 J7 J8 J9 J10].
+  assert (Hb : In r0 (busy s c0)) by (apply J3; rewrite Hq; reflexivity).
+  open_step H; split_guards; upd_cases; auto; try congruence; try discriminate.
+  all: try (repeat split; auto; congruence).
+  all: try (match goal with Hx : busy _ _ = [] |- _ => rewrite Hx in Hb; contradiction end).
   subst. pose proof (J7 c r eq_refl). congruence.
 Qed.
 
@@ -713,27 +838,30 @@ Proof.
 Qed.
 
 Lemma stuck_forever : forall W cap early ls s s' c r, reachable W cap early s ->
-  stopped s = true -> rs s c r = Queued -> ph s <> SRetDrained -> run W cap early s ls = Some s' ->
-  reachable W cap early s' /\ rs s' c r = Queued /\ ph s' <> SRetDrained.
+  stopped s = true -> rs s c r = Queued -> chk s c = false -> cst s c <> CClosed ->
+  ph s <> SRetDrained -> run W cap early s ls = Some s' ->
+  reachable W cap early s' /\ rs s' c r = Queued /\ cst s' c <> CClosed /\ ph s' <> SRetDrained.
 Proof.
-  induction ls as [|l ls IH]; intros s s' c r Hr Hst Hq Hp H; cbn in H.
+  induction ls as [|l ls IH]; intros s s' c r Hr Hst Hq Hck Hcl Hp H; cbn in H.
   - inversion H. subst. auto.
   - destruct (step W cap early s l) as [s1|] eqn:E; [|discriminate].
-    destruct (stuck_step W cap early s l s1 c r Hr Hst Hq E) as [Hst1 Hq1].
+    destruct (stuck_step W cap early s l s1 c r Hr Hst Hq Hck Hcl E) as [Hst1 [Hq1 [Hck1 Hcl1]]].
     eapply (IH s1); eauto.
     + eapply reachable_step; eauto.
     + intros Hp1. destruct (ph_drained_step _ _ _ _ _ _ E Hp1) as [Hx | Hx]; [contradiction|]. subst l.
-      destruct (drained_return_sound W cap early s s1 Hr E) as [_ [_ Hu]].
-      specialize (Hu c r). rewrite Hq1 in Hu. discriminate.
+      destruct (drained_return_all_closed W cap early s s1 Hr E) as [_ Hall].
+      assert (Hr1 : reachable W cap early s1) by (eapply reachable_step; eauto).
+      destruct (unanswered_in_table s1 (reachable_Safe W cap early s1 Hr1) c r) as [Hk _]; [rewrite Hq1; reflexivity|].
+      exact (Hcl1 (Hall c Hk)).
 Qed.
 
 Definition release_before_drain : list label :=
-  [LConnect 0; LSend 0 0; LSend 0 1; LRead 0 0; LEnqueue 0 0; LRead 0 1; LEnqueue 0 1; LTake 0 0; LStart 0 0;
-   LShutdown; LAcceptExit; LPoolStop; LFinish 0 0].
+  [LConnect 0; LSend 0 0; LSend 0 1; LReadBytes 0 0; LRead 0 0; LEnqueue 0 0; LReadBytes 0 1; LRead 0 1; LEnqueue 0 1;
+   LTake 0 0; LStart 0 0; LShutdown; LAcceptExit; LPoolStop; LFinish 0 0].
 
 Theorem progress_refuted_with_early_release :
   exists s, run 1 10 true init release_before_drain = Some s /\
-    unanswered (rs s 0 1) = true /\
+    unanswered (rs s 0 1) = true /\ raced s = false /\
     forall ls s', run 1 10 true s ls = Some s' ->
       rs s' 0 1 = Queued /\                      (* never executed *)
       cst s' 0 <> CClosed /\                     (* its connection is never closed by the server *)
@@ -745,12 +873,12 @@ Proof.
   assert (Hst : stopped s = true) by (vm_compute in E; inversion E; reflexivity).
   assert (Hq : rs s 0 1 = Queued) by (vm_compute in E; inversion E; reflexivity).
   assert (Hph : ph s = SDown) by (vm_compute in E; inversion E; reflexivity).
-  split; [rewrite Hq; reflexivity|].
+  assert (Hck : chk s 0 = false) by (vm_compute in E; inversion E; reflexivity).
+  assert (Hcl : cst s 0 = COpen) by (vm_compute in E; inversion E; reflexivity).
+  assert (Hrc : raced s = false) by (vm_compute in E; inversion E; reflexivity).
+  split; [rewrite Hq; reflexivity|]. split; [exact Hrc|].
   intros ls s' H.
-  destruct (stuck_forever 1 10 true ls s s' 0 1 Hr Hst Hq) as [Hr' [Hq' Hp']]; auto; [congruence|].
-  split; auto. split; auto.
-  intros Hc. destruct (answered_before_close 1 10 true s' Hr' 0 Hc 1) as [Hu _].
-  rewrite Hq' in Hu. discriminate.
+  destruct (stuck_forever 1 10 true ls s s' 0 1 Hr Hst Hq Hck) as [Hr' [Hq' [Hc' Hp']]]; auto; congruence.
 Qed.
 
 (* the same trace is not a trace of the repaired code: LPoolStop is refused while a connection is in the table *)
@@ -762,26 +890,26 @@ Proof. vm_compute. reflexivity. Qed.
    code this needs the accept loop to miss the SetDeadline(now) wake-up for 500 ms (it re-arms its own accept
    deadline between its isClosed test and Accept) — a window of microseconds that was not exhibited on the code. *)
 Theorem notification_needs_listener_down :
-  exists s, run 0 10 false init [LConnect 0; LShutdown; LPollBegin; LPollClose 0] = Some s /\
+  exists s, run 0 10 false init [LConnect 0; LShutdown; LPollBegin; LPollCheck 0; LPollClose 0] = Some s /\
             cst s 0 = CClosed /\ notified s 0 = false /\ earlypoll s = true /\ returned (ph s) = false.
 Proof. eexists. split; [vm_compute; reflexivity|]. cbn. auto. Qed.
 
 (* non-trivial instances of the hypotheses used above *)
 Example notification_hypotheses_instance :
-  exists s, run 1 10 false init [LConnect 0; LConnect 1; LShutdown; LAcceptExit; LPollBegin; LPollClose 0;
+  exists s, run 1 10 false init [LConnect 0; LConnect 1; LShutdown; LAcceptExit; LPollBegin; LPollCheck 0; LPollClose 0;
                                  LRecvExit 1; LPollEnd; LPollBegin; LRecvClose 1] = Some s /\
             earlypoll s = false /\ returned (ph s) = false /\ cst s 0 = CClosed /\ cst s 1 = CClosed /\
             notified s 0 = true /\ notified s 1 = true.
 Proof. eexists. split; [vm_compute; reflexivity|]. cbn. repeat split; reflexivity. Qed.
 
 Example drained_return_instance :
-  exists s s', run 1 10 false init [LConnect 0; LSend 0 0; LRead 0 0; LEnqueue 0 0; LShutdown; LAcceptExit; LTake 0 0;
-                                    LStart 0 0; LPollBegin; LPollEnd; LFinish 0 0; LPollBegin; LPollClose 0] = Some s /\
+  exists s s', run 1 10 false init [LConnect 0; LSend 0 0; LReadBytes 0 0; LRead 0 0; LEnqueue 0 0; LShutdown; LAcceptExit; LTake 0 0;
+                                    LStart 0 0; LPollBegin; LPollEnd; LFinish 0 0; LPollBegin; LPollCheck 0; LPollClose 0] = Some s /\
                step 1 10 false s LPollReturn = Some s' /\ ph s' = SRetDrained /\ rs s' 0 0 = Answered.
 Proof. eexists. eexists. split; [vm_compute; reflexivity|]. split; [vm_compute; reflexivity|]. cbn. split; reflexivity. Qed.
 
 Example progress_hypotheses_instance :
-  exists s, run 2 10 false init [LConnect 0; LSend 0 0; LRead 0 0; LEnqueue 0 0; LShutdown; LAcceptExit; LPollBegin] = Some s /\
+  exists s, run 2 10 false init [LConnect 0; LSend 0 0; LReadBytes 0 0; LRead 0 0; LEnqueue 0 0; LShutdown; LAcceptExit; LPollBegin] = Some s /\
             alive (ph s) = true /\ unanswered (rs s 0 0) = true /\ earlypoll s = false /\ (0 < 10)%N.
 Proof. eexists. split; [vm_compute; reflexivity|]. cbn. repeat split; reflexivity. Qed.
 
@@ -843,8 +971,10 @@ Proof.
   intros s c r s' H. unfold ensure_read in H.
   destruct (unanswered (rs s c r) || rstate_eqb (rs s c r) Answered).
   - inversion H. apply reach_refl.
-  - destruct (stepR (pump W cap s) (LRead c r)) eqn:E; [|discriminate]. inversion H. subst.
-    eapply reach_trans; [apply reach_pump|]. eapply reach_trans; [eapply reach_step; eauto | apply reach_pump].
+  - destruct (stepR (pump W cap s) (LReadBytes c r)) as [s0|] eqn:E0; [|discriminate].
+    destruct (stepR s0 (LRead c r)) eqn:E; [|discriminate]. inversion H. subst.
+    eapply reach_trans; [apply reach_pump|]. eapply reach_trans; [eapply reach_step; eauto|].
+    eapply reach_trans; [eapply reach_step; eauto | apply reach_pump].
 Qed.
 
 Lemma reach_ensure_started : forall s e c r s', ensure_started W cap s e c r = Some s' -> reach s s'.
@@ -1031,7 +1161,7 @@ Proof.
     destruct (rstate_eqb (rs s1 c0 r0) Fresh) eqn:Ef.
     + right. apply rstate_eqb_eq in Ef.
       assert (Hr1 : reachable W cap early s1) by (exists ls; exact E1).
-      destruct (reachable_Safe W cap early s1 Hr1) as [J1 J2 J2' J3 J4 J5 J6 J7].
+      destruct (reachable_Safe W cap early s1 Hr1) as [J1 J2 J2' J3 J4 J6 J7 J8 J9 J10].
       open_step E2; split_guards; upd_cases; try contradiction; try congruence; cbn; auto.
       * pose proof (J6 c r) as Hq. rewrite Ef in Hq. apply existsb_req_in in H0. specialize (Hq H0). discriminate.
       * subst. pose proof (J7 c r eq_refl). congruence.
@@ -1093,7 +1223,7 @@ Lemma busy_unanswered : forall W cap early s, reachable W cap early s ->
 Proof.
   intros W cap early. apply (reachable_ind' W cap early (fun s => forall c r, In r (busy s c) -> unanswered (rs s c r) = true)).
   - cbn. intros. contradiction.
-  - intros s l s' Hr IH H c0 r0 Hin. destruct (reachable_Safe W cap early s Hr) as [J1 J2 J2' J3 J4 J5 J6 J7].
+  - intros s l s' Hr IH H c0 r0 Hin. destruct (reachable_Safe W cap early s Hr) as [J1 J2 J2' J3 J4 J6 J7 J8 J9 J10].
     open_step H; split_guards; upd_cases; auto; try (cbn [In] in Hin);
       try (match goal with |- unanswered ?x = true => reflexivity end).
     all: try (destruct Hin as [Hin | Hin]; [congruence | auto]; fail).
@@ -1101,77 +1231,246 @@ Proof.
     all: try (specialize (IH _ _ Hin); match goal with Hx : rs _ ?c ?r = _ |- _ => rewrite Hx in IH; discriminate IH end).
 Qed.
 
+Lemma pipeline_step_aux : forall W cap early s l s', step W cap early s l = Some s' -> pipeline_label l ->
+  rdbuf s' = rdbuf s /\ chk s' = chk s /\ raced s' = raced s /\ known s' = known s /\ inpoll s' = inpoll s.
+Proof. intros W cap early s l s' H Hp. open_step H; try contradiction; repeat split; reflexivity. Qed.
+
+Lemma pipeline_run_aux : forall W cap early ls s s', Forall pipeline_label ls -> run W cap early s ls = Some s' ->
+  rdbuf s' = rdbuf s /\ chk s' = chk s /\ raced s' = raced s /\ known s' = known s /\ inpoll s' = inpoll s.
+Proof.
+  induction ls as [|l ls IH]; intros s s' Hf H; cbn in H.
+  - inversion H. subst. repeat split; reflexivity.
+  - inversion Hf; subst. destruct (step W cap early s l) as [s1|] eqn:E; [|discriminate].
+    destruct (pipeline_step_aux _ _ _ _ _ _ E H2) as [A1 [A2 [A3 [A4 A5]]]].
+    destruct (IH s1 s' H3 H) as [B1 [B2 [B3 [B4 B5]]]]. repeat split; congruence.
+Qed.
+
+Lemma reachable_run : forall W cap early s ls s', reachable W cap early s -> run W cap early s ls = Some s' ->
+  reachable W cap early s'.
+Proof. intros W cap early s ls s' [l0 Hl0] H. exists (l0 ++ ls). rewrite run_app, Hl0. exact H. Qed.
+
+(* requests that a receive loop holds read-and-uncounted are counted (handleConn goes on): for the connections of l *)
+Lemma flush_rdbuf : forall W cap early (l : list cid) s, reachable W cap early s -> alive (ph s) = true ->
+  exists ls s', run W cap early s ls = Some s' /\ ph s' = ph s /\ raced s' = raced s /\ known s' = known s /\
+    (forall c, In c l -> rdbuf s' c = None) /\ (forall c, rdbuf s c = None -> rdbuf s' c = None).
+Proof.
+  intros W cap early. induction l as [|c l IH]; intros s Hr Hal.
+  - exists [], s. cbn. repeat split; auto. intros c Hc. contradiction.
+  - destruct (IH s Hr Hal) as [ls [s1 [Hrun [Hp1 [Hrc1 [Hkn1 [Hl1 Hk1]]]]]]].
+    assert (Hr1 : reachable W cap early s1) by (eapply reachable_run; eauto).
+    destruct (rdbuf s1 c) as [r|] eqn:E.
+    2:{ exists ls, s1. repeat split; auto. intros c0 [Hc0 | Hc0]; [subst; auto | auto]. }
+    destruct (reachable_Safe W cap early s1 Hr1) as [J1 J2 J2' J3 J4 J6 J7 J8 J9 J10].
+    destruct (J8 c r E) as [Hfl _].
+    assert (Hstep : exists s2, step W cap early s1 (LRead c r) = Some s2 /\ ph s2 = ph s1 /\ raced s2 = raced s1 /\
+                               known s2 = known s1 /\ rdbuf s2 = upd (rdbuf s1) c None).
+    { assert (Hal1 : alive (ph s1) = true) by (rewrite Hp1; exact Hal).
+      unfold step. rewrite Hal1. cbn [negb]. rewrite E, Hfl, Nat.eqb_refl.
+      destruct (W =? 0); eexists; (split; [reflexivity|]); cbn; repeat split; reflexivity. }
+    destruct Hstep as [s2 [Hs2 [Hp2 [Hrc2 [Hkn2 Hrd2]]]]].
+    exists (ls ++ [LRead c r]), s2. split; [rewrite run_app, Hrun; cbn; rewrite Hs2; reflexivity|].
+    split; [congruence|]. split; [congruence|]. split; [congruence|]. rewrite Hrd2. split.
+    + intros c0 [Hc0 | Hc0]; [subst; apply upd_eq|].
+      destruct (Nat.eq_dec c0 c) as [Ec | Ec]; [subst; apply upd_eq | rewrite upd_neq by assumption; auto].
+    + intros c0 Hn. destruct (Nat.eq_dec c0 c) as [Ec | Ec]; [subst; apply upd_eq | rewrite upd_neq by assumption; auto].
+Qed.
+
 Definition conn_done (s : state) (c : cid) : Prop := inmap s c = false \/ cst s c = CClosed.
 
+(* one tick of the poller closes the connections of l, one after the other: pending test first, else test and close *)
 Lemma close_all_in_tick : forall W cap early (l : list cid) s, reachable W cap early s ->
-  ph s = SDown -> inpoll s = true -> (forall c, busy s c = []) ->
+  ph s = SDown -> inpoll s = true -> (forall c, busy s c = []) -> (forall c, rdbuf s c = None) ->
   exists ls s', run W cap early s ls = Some s' /\ reachable W cap early s' /\
     ph s' = SDown /\ inpoll s' = true /\ known s' = known s /\ (forall c, busy s' c = []) /\
-    (forall c, In c l -> conn_done s' c) /\ (forall c, conn_done s c -> conn_done s' c).
+    (forall c, rdbuf s' c = None) /\ raced s' = raced s /\
+    (forall c, In c l -> conn_done s' c /\ chk s' c = false) /\
+    (forall c, conn_done s c -> conn_done s' c) /\ (forall c, chk s c = false -> chk s' c = false).
 Proof.
-  intros W cap early. induction l as [|c l IH]; intros s Hr Hp Hi Hb.
-  - exists [], s. cbn. repeat split; auto. intros c Hc. contradiction.
-  - destruct (IH s Hr Hp Hi Hb) as [ls [s1 [Hrun [Hr1 [Hp1 [Hi1 [Hk1 [Hb1 [Hl1 Hkeep1]]]]]]]]].
-    destruct (inmap s1 c) eqn:Hm.
-    2:{ exists ls, s1. repeat split; auto. intros c0 [Hc0 | Hc0]; [subst; left; auto | auto]. }
-    destruct (cstate_eqb (cst s1 c) CClosed) eqn:Hc.
-    { apply cstate_eqb_eq in Hc. exists ls, s1. repeat split; auto. intros c0 [Hc0 | Hc0]; [subst; right; auto | auto]. }
-    destruct (reachable_Safe W cap early s1 Hr1) as [J1 J2 J2' J3 J4 J5 J6 J7].
-    assert (Hopen : cst s1 c = COpen \/ cst s1 c = CExited).
-    { destruct (cst s1 c) eqn:E; auto.
-      - rewrite (J2' c E) in Hm. discriminate.
-      - cbn in Hc. discriminate. }
-    assert (Hstep : exists s2, step W cap early s1 (LPollClose c) = Some s2 /\
-              s2 = set_conn s1 c CClosed true (notified s1 c) (polled s1 c)).
-    { unfold step. rewrite Hp1. cbn [alive negb poller_live]. rewrite Hi1, Hm. cbn [andb].
-      rewrite (Hb1 c). destruct Hopen as [E | E]; rewrite E; eexists; split; reflexivity. }
-    destruct Hstep as [s2 [Hs2 Hdef]].
-    exists (ls ++ [LPollClose c]), s2. split.
-    { rewrite run_app, Hrun. cbn. rewrite Hs2. reflexivity. }
-    split; [eapply reachable_step; eauto|].
-    subst s2. unfold set_conn, conn_done in *. cbn [ph inpoll known busy inmap cst].
-    repeat split; auto.
+  intros W cap early. induction l as [|c l IH]; intros s Hr Hp Hi Hb Hd.
+  - exists [], s. cbn. repeat split; auto; try contradiction; try (intros c0 Hc0; contradiction).
+  - destruct (IH s Hr Hp Hi Hb Hd) as [ls [s1 [Hrun [Hr1 [Hp1 [Hi1 [Hk1 [Hb1 [Hd1 [Hrc1 [Hl1 [Hkeep1 Hck1]]]]]]]]]]]].
+    destruct (reachable_Safe W cap early s1 Hr1) as [J1 J2 J2' J3 J4 J6 J7 J8 J9 J10].
+    (* first: a test of c that is still pending is completed *)
+    assert (Hclr : exists la sa, run W cap early s1 la = Some sa /\ reachable W cap early sa /\ ph sa = SDown /\
+              inpoll sa = true /\ known sa = known s1 /\ (forall c, busy sa c = []) /\ (forall c, rdbuf sa c = None) /\
+              raced sa = raced s1 /\ chk sa c = false /\
+              (forall c0, conn_done s1 c0 -> conn_done sa c0) /\ (forall c0, chk s1 c0 = false -> chk sa c0 = false)).
+    { destruct (chk s1 c) eqn:Ec.
+      2:{ exists [], s1. cbn. repeat split; auto. }
+      destruct (J10 c Ec) as [_ [Hkn _]]. apply J1 in Hkn.
+      assert (Hstep : exists s2, step W cap early s1 (LPollClose c) = Some s2 /\ ph s2 = ph s1 /\ inpoll s2 = inpoll s1 /\
+                known s2 = known s1 /\ busy s2 = busy s1 /\ rdbuf s2 = rdbuf s1 /\ raced s2 = raced s1 /\
+                chk s2 = upd (chk s1) c false /\
+                (forall c0, conn_done s1 c0 -> conn_done s2 c0)).
+      { unfold step. rewrite Hp1. cbn [alive negb]. rewrite Ec.
+        destruct (cst s1 c) eqn:Es; try contradiction; eexists; (split; [reflexivity|]); cbn; repeat split; auto.
+        all: unfold conn_done; cbn; intros c0 Hx; destruct (Nat.eq_dec c0 c) as [E0 | E0];
+             [subst; right; apply upd_eq | rewrite !(upd_neq _ _ c _ c0 E0); auto]. }
+      destruct Hstep as [s2 [Hs2 [A1 [A2 [A3 [A4 [A5 [A6 [A7 A8]]]]]]]]].
+      exists [LPollClose c], s2. cbn. rewrite Hs2. split; auto. split; [eapply reachable_step; eauto|].
+      split; [congruence|]. split; [congruence|]. split; [congruence|]. split; [intros c0; rewrite A4; auto|].
+      split; [intros c0; rewrite A5; auto|]. split; [congruence|]. split; [rewrite A7; apply upd_eq|]. split; [exact A8|].
+      intros c0 Hx. rewrite A7. destruct (Nat.eq_dec c0 c) as [E0 | E0]; [subst; apply upd_eq | rewrite upd_neq by assumption; auto]. }
+    destruct Hclr as [la [sa [Hra [Hrea [Hpa [Hia [Hka [Hba [Hda [Hrca [Hcka [Hkeepa Hckk]]]]]]]]]]]].
+    destruct (reachable_Safe W cap early sa Hrea) as [I1 I2 I2' I3 I4 I6 I7 I8 I9 I10].
+    assert (Hdec : conn_done sa c \/ (inmap sa c = true /\ (cst sa c = COpen \/ cst sa c = CExited))).
+    { unfold conn_done. destruct (inmap sa c) eqn:Hm; auto. destruct (cst sa c) eqn:Es; auto.
+      rewrite (I2' c Es) in Hm. discriminate. }
+    destruct Hdec as [Hdone | [Hm Hopen]].
+    { exists (ls ++ la), sa. split; [rewrite run_app, Hrun; exact Hra|]. split; auto.
+      split; auto. split; auto. split; [congruence|]. split; auto. split; auto. split; [congruence|].
+      split; [|split].
+      - intros c0 [Hc0 | Hc0]; [subst; auto|]. destruct (Hl1 c0 Hc0) as [X1 X2]. split; [apply Hkeepa, X1 | apply Hckk, X2].
+      - intros c0 Hx. apply Hkeepa, Hkeep1, Hx.
+      - intros c0 Hx. apply Hckk, Hck1, Hx. }
+    (* test, then close *)
+    assert (Hstep : exists s3, run W cap early sa [LPollCheck c; LPollClose c] = Some s3 /\ ph s3 = SDown /\ inpoll s3 = true /\
+              known s3 = known sa /\ busy s3 = busy sa /\ rdbuf s3 = rdbuf sa /\ raced s3 = raced sa /\
+              chk s3 = upd (upd (chk sa) c true) c false /\ cst s3 = upd (cst sa) c CClosed /\ inmap s3 = upd (inmap sa) c true).
+    { cbn [run]. unfold step at 1. rewrite Hpa. cbn [alive negb poller_live]. rewrite Hia, Hm. cbn [andb]. rewrite (Hba c).
+      destruct Hopen as [Es | Es]; rewrite Es.
+      all: unfold step; cbn [ph listen inpoll known cst inmap notified polled busy pend rs queue hand running stopped earlypoll rdbuf chk raced set_aux].
+      all: rewrite Hpa; cbn [alive negb]; rewrite upd_eq, Es, (Hda c); cbn [is_some orb].
+      all: eexists; (split; [reflexivity|]); cbn; rewrite ?orb_false_r; repeat split; auto. }
+    destruct Hstep as [s3 [Hs3 [B1 [B2 [B3 [B4 [B5 [B6 [B7 [B8 B9]]]]]]]]]].
+    exists (ls ++ la ++ [LPollCheck c; LPollClose c]), s3.
+    split; [rewrite run_app, Hrun, run_app, Hra; exact Hs3|].
+    split; [eapply reachable_run; [exact Hrea | exact Hs3]|].
+    split; auto. split; auto. split; [congruence|]. split; [intros c0; rewrite B4; auto|].
+    split; [intros c0; rewrite B5; auto|]. split; [congruence|].
+    assert (Hcd : forall c0, conn_done sa c0 -> conn_done s3 c0).
+    { unfold conn_done. intros c0 Hx. rewrite B8, B9. destruct (Nat.eq_dec c0 c) as [E0 | E0];
+        [subst; right; apply upd_eq | rewrite !(upd_neq _ _ c _ c0 E0); auto]. }
+    assert (Hcf : forall c0, chk sa c0 = false -> chk s3 c0 = false).
+    { intros c0 Hx. rewrite B7. destruct (Nat.eq_dec c0 c) as [E0 | E0]; [subst; apply upd_eq | rewrite !(upd_neq _ _ c _ c0 E0); auto]. }
+    split; [|split].
     + intros c0 [Hc0 | Hc0].
-      * subst c0. right. apply upd_eq.
-      * destruct (Nat.eq_dec c0 c) as [E | E]; [subst; right; apply upd_eq|].
-        rewrite !(upd_neq _ _ c _ c0 E). auto.
-    + intros c0 Hd. destruct (Nat.eq_dec c0 c) as [E | E]; [subst; right; apply upd_eq|].
-      rewrite !(upd_neq _ _ c _ c0 E). auto.
+      * subst c0. split; [unfold conn_done; right; rewrite B8; apply upd_eq | rewrite B7; apply upd_eq].
+      * destruct (Hl1 c0 Hc0) as [X1 X2]. split; [apply Hcd, Hkeepa, X1 | apply Hcf, Hckk, X2].
+    + intros c0 Hx. apply Hcd, Hkeepa, Hkeep1, Hx.
+    + intros c0 Hx. apply Hcf, Hckk, Hck1, Hx.
 Qed.
 
 Theorem can_always_return_drained : forall W cap, (0 < cap)%N -> forall ls s, run W cap false init ls = Some s ->
-  ph s = SDown -> exists ls' s', run W cap false s ls' = Some s' /\ ph s' = SRetDrained.
+  ph s = SDown -> exists ls' s', run W cap false s ls' = Some s' /\ ph s' = SRetDrained /\ raced s' = raced s.
 Proof.
   intros W cap Hcap ls s Hrun Hp.
   assert (Halive : alive (ph s) = true) by (rewrite Hp; reflexivity).
-  destruct (can_always_drain W cap Hcap ls s Hrun Halive) as [l1 [s1 [_ [Hr1 [Hp1 Hall1]]]]].
-  assert (Hreach1 : reachable W cap false s1).
-  { exists (ls ++ l1). rewrite run_app, Hrun. exact Hr1. }
+  assert (Hreach : reachable W cap false s) by (exists ls; exact Hrun).
+  (* 1. what the receive loops hold is counted *)
+  destruct (flush_rdbuf W cap false (known s) s Hreach Halive) as [l0 [s0 [Hr0 [Hp0 [Hrc0 [Hkn0 [Hfl0 _]]]]]]].
+  assert (Hreach0 : reachable W cap false s0) by (eapply reachable_run; eauto).
+  assert (Hrun0 : run W cap false init (ls ++ l0) = Some s0) by (rewrite run_app, Hrun; exact Hr0).
+  assert (Hrd0 : forall c, rdbuf s0 c = None).
+  { intros c. destruct (reachable_Safe W cap false s0 Hreach0) as [J1 _ _ _ J4 _ _ _ _ _].
+    destruct (cst s0 c) eqn:E; try (apply Hfl0; rewrite <- Hkn0; apply J1; congruence).
+    apply (J4 c E). }
+  (* 2. the pipeline answers everything that is counted *)
+  assert (Halive0 : alive (ph s0) = true) by (rewrite Hp0; exact Halive).
+  destruct (can_always_drain W cap Hcap (ls ++ l0) s0 Hrun0 Halive0) as [l1 [s1 [Hf1 [Hr1 [Hp1 Hall1]]]]].
+  destruct (pipeline_run_aux _ _ _ _ _ _ Hf1 Hr1) as [A1 [A2 [A3 [A4 A5]]]].
+  assert (Hreach1 : reachable W cap false s1) by (eapply reachable_run; eauto).
   assert (Hb1 : forall c, busy s1 c = []).
   { intros c. destruct (busy s1 c) as [|r rest] eqn:E; auto.
     pose proof (busy_unanswered W cap false s1 Hreach1 c r) as Hu. rewrite E in Hu. specialize (Hu (or_introl eq_refl)).
     rewrite Hall1 in Hu. discriminate. }
-  rewrite Hp in Hp1.
-  (* get a tick going *)
+  assert (Hrd1 : forall c, rdbuf s1 c = None) by (intros c; rewrite A1; apply Hrd0).
+  rewrite Hp0, Hp in Hp1.
+  (* 3. a tick *)
   assert (Htick : exists l2 s2, run W cap false s1 l2 = Some s2 /\ reachable W cap false s2 /\ ph s2 = SDown /\
-                    inpoll s2 = true /\ known s2 = known s1 /\ (forall c, busy s2 c = [])).
+                    inpoll s2 = true /\ known s2 = known s1 /\ (forall c, busy s2 c = []) /\
+                    (forall c, rdbuf s2 c = None) /\ raced s2 = raced s1).
   { destruct (inpoll s1) eqn:Hi.
     - exists [], s1. cbn. repeat split; auto.
     - destruct (step W cap false s1 LPollBegin) as [s2|] eqn:E.
       + exists [LPollBegin], s2. cbn. rewrite E. split; auto. split; [eapply reachable_step; eauto|].
         unfold step in E. rewrite Hp1, Hi in E. cbn in E. inversion E. subst s2. cbn. repeat split; auto.
       + exfalso. unfold step in E. rewrite Hp1, Hi in E. cbn in E. discriminate. }
-  destruct Htick as [l2 [s2 [Hr2 [Hreach2 [Hp2 [Hi2 [Hk2 Hb2]]]]]]].
-  destruct (close_all_in_tick W cap false (known s2) s2 Hreach2 Hp2 Hi2 Hb2)
-    as [l3 [s3 [Hr3 [Hreach3 [Hp3 [Hi3 [Hk3 [Hb3 [Hdone _]]]]]]]]].
+  destruct Htick as [l2 [s2 [Hr2 [Hreach2 [Hp2 [Hi2 [Hk2 [Hb2 [Hrd2 Hrc2]]]]]]]]].
+  (* 4. it closes every connection *)
+  destruct (close_all_in_tick W cap false (known s2) s2 Hreach2 Hp2 Hi2 Hb2 Hrd2)
+    as [l3 [s3 [Hr3 [Hreach3 [Hp3 [Hi3 [Hk3 [Hb3 [Hrd3 [Hrc3 [Hdone _]]]]]]]]]]].
   assert (Hac : all_closed s3 = true).
-  { unfold all_closed. apply forallb_forall. intros c Hc. rewrite Hk3 in Hc. destruct (Hdone c Hc) as [Hd | Hd].
+  { unfold all_closed. apply forallb_forall. intros c Hc. rewrite Hk3 in Hc. destruct (Hdone c Hc) as [[Hd | Hd] _].
     - rewrite Hd. reflexivity.
     - rewrite Hd. apply orb_true_r. }
-  destruct (drained_return_enabled W cap false s3) as [s4 [Hr4 Hp4]]; [rewrite Hp3; reflexivity | exact Hac |].
+  assert (Hnc : nochk s3 = true).
+  { unfold nochk. apply forallb_forall. intros c Hc. rewrite Hk3 in Hc. destruct (Hdone c Hc) as [_ Hx]. rewrite Hx. reflexivity. }
+  destruct (drained_return_enabled W cap false s3) as [s4 [Hr4 Hp4]]; [rewrite Hp3; reflexivity | exact Hac | exact Hnc |].
   rewrite Hi3 in Hr4.
-  exists (l1 ++ l2 ++ l3 ++ [LPollReturn]), s4. split; auto.
-  rewrite run_app, Hr1, run_app, Hr2, run_app, Hr3. exact Hr4.
+  exists (l0 ++ l1 ++ l2 ++ l3 ++ [LPollReturn]), s4. split; [|split; auto].
+  - rewrite run_app, Hr0, run_app, Hr1, run_app, Hr2, run_app, Hr3. exact Hr4.
+  - cbn in Hr4. destruct (step W cap false s3 LPollReturn) as [s5|] eqn:E5; [|discriminate]. inversion Hr4; subst s5.
+    clear Halive Halive0. remember LPollReturn as lr eqn:Elr. open_step E5; try discriminate Elr. cbn. congruence.
+Qed.
+
+(* Every request is started at most once and answered at most once (no duplicate execution, no duplicate response),
+   on every schedule: the finishing step needs rank 5 and leaves rank 6, the starting step needs rank 4 and leaves
+   rank 5, and ranks never go down. *)
+Definition is_finish (c : cid) (r : rid) (l : label) : bool :=
+  match l with LFinish c' r' => (c' =? c) && (r' =? r) | _ => false end.
+Definition is_start (c : cid) (r : rid) (l : label) : bool :=
+  match l with LStart c' r' => (c' =? c) && (r' =? r) | _ => false end.
+Definition count_lab (f : label -> bool) (ls : list label) : nat := length (filter f ls).
+
+Lemma count_lab_app : forall f a b, count_lab f (a ++ b) = count_lab f a + count_lab f b.
+Proof. intros. unfold count_lab. rewrite filter_app, app_length. reflexivity. Qed.
+
+Lemma finish_rank : forall W cap early s c r s', step W cap early s (LFinish c r) = Some s' ->
+  rank (rs s c r) = 5 /\ rank (rs s' c r) = 6.
+Proof.
+  intros W cap early s c r s' H. remember (LFinish c r) as l eqn:El.
+  open_step H; try discriminate El. inversion El; subst. split_guards.
+  match goal with Hx : rs s c r = Running |- _ => rewrite Hx end. rewrite upd2_eq.
+  destruct (cstate_eqb (cst s c) CClosed); split; reflexivity.
+Qed.
+
+Lemma start_rank : forall W cap early s c r s', reachable W cap early s -> step W cap early s (LStart c r) = Some s' ->
+  rank (rs s c r) = 4 /\ rank (rs s' c r) = 5.
+Proof.
+  intros W cap early s c r s' Hr H. destruct (reachable_Safe W cap early s Hr) as [J1 J2 J2' J3 J4 J6 J7 J8 J9 J10].
+  remember (LStart c r) as l eqn:El.
+  open_step H; try discriminate El; inversion El; subst; split_guards; rewrite upd2_eq.
+  - match goal with Hx : rs s c r = Spawned |- _ => rewrite Hx end. split; reflexivity.
+  - subst. rewrite (J7 c r) by reflexivity. split; reflexivity.
+Qed.
+
+Lemma at_most_once_arith : forall nf ns k bf bs : nat, k <= 6 ->
+  nf <= 1 -> (nf = 1 -> k = 6) -> ns <= 1 -> (ns = 1 -> 5 <= k) ->
+  forall k', k <= k' -> k' <= 6 ->
+  (bf = 1 -> k = 5 /\ k' = 6) -> (bs = 1 -> k = 4 /\ k' = 5) -> bf <= 1 -> bs <= 1 -> bf + bs <= 1 ->
+  nf + bf <= 1 /\ (nf + bf = 1 -> k' = 6) /\ ns + bs <= 1 /\ (ns + bs = 1 -> 5 <= k').
+Proof. intros. lia. Qed.
+
+Theorem answered_at_most_once : forall W cap early ls s c r, run W cap early init ls = Some s ->
+  count_lab (is_finish c r) ls <= 1 /\ (count_lab (is_finish c r) ls = 1 -> rank (rs s c r) = 6) /\
+  count_lab (is_start c r) ls <= 1 /\ (count_lab (is_start c r) ls = 1 -> 5 <= rank (rs s c r)).
+Proof.
+  intros W cap early ls. induction ls as [|l ls IH] using rev_ind; intros s c r Hrun.
+  - cbn. repeat split; auto; intros; discriminate.
+  - rewrite run_app in Hrun. destruct (run W cap early init ls) as [s1|] eqn:E1; [|discriminate].
+    cbn in Hrun. destruct (step W cap early s1 l) as [s2|] eqn:E2; [|discriminate]. inversion Hrun. subst s2.
+    assert (Hr1 : reachable W cap early s1) by (exists ls; exact E1).
+    pose proof (step_rank_mono W cap early s1 l s Hr1 E2 c r) as Hm.
+    assert (Hle : rank (rs s c r) <= 6) by (destruct (rs s c r); cbn; lia).
+    assert (Hle1 : rank (rs s1 c r) <= 6) by (destruct (rs s1 c r); cbn; lia).
+    destruct (IH s1 c r eq_refl) as [F1 [F2 [S1 S2]]].
+    rewrite !count_lab_app.
+    assert (Bf : count_lab (is_finish c r) [l] = if is_finish c r l then 1 else 0)
+      by (unfold count_lab; cbn; destruct (is_finish c r l); reflexivity).
+    assert (Bs : count_lab (is_start c r) [l] = if is_start c r l then 1 else 0)
+      by (unfold count_lab; cbn; destruct (is_start c r l); reflexivity).
+    rewrite Bf, Bs.
+    apply (at_most_once_arith _ _ (rank (rs s1 c r))); auto.
+    + destruct (is_finish c r l) eqn:Ef; [|discriminate]. intros _.
+      destruct l; try discriminate. cbn in Ef. apply andb_true_iff in Ef. destruct Ef as [A B].
+      apply Nat.eqb_eq in A, B. subst. exact (finish_rank _ _ _ _ _ _ _ E2).
+    + destruct (is_start c r l) eqn:Es; [|discriminate]. intros _.
+      destruct l; try discriminate. cbn in Es. apply andb_true_iff in Es. destruct Es as [A B].
+      apply Nat.eqb_eq in A, B. subst. exact (start_rank _ _ _ _ _ _ _ Hr1 E2).
+    + destruct (is_finish c r l); auto.
+    + destruct (is_start c r l); auto.
+    + destruct l; cbn; auto; destruct ((c0 =? c) && (r0 =? r)); auto.
 Qed.
 
 (* ---------------------------------------------------------------------------------------------------------- *)
@@ -1180,26 +1479,81 @@ Qed.
 Lemma is_reachable : forall W cap early ls s, run W cap early init ls = Some s -> reachable W cap early s.
 Proof. intros. exists ls. assumption. Qed.
 
-Theorem c12_answered_before_close : forall W cap early ls s, run W cap early init ls = Some s ->
-  forall c, cst s c = CClosed -> forall r, unanswered (rs s c r) = false /\ rs s c r <> Lost.
+(* Clause 1 at full strength (no hypothesis on the schedule) — false of the two-instruction model, see below. *)
+Definition c12_answered_before_close_statement : Prop :=
+  forall W cap early ls s, run W cap early init ls = Some s ->
+  forall c, cst s c = CClosed -> rdbuf s c = None /\ forall r, unanswered (rs s c r) = false /\ rs s c r <> Lost.
+
+Theorem c12_answered_before_close : forall W cap early ls s, run W cap early init ls = Some s -> raced s = false ->
+  forall c, cst s c = CClosed -> rdbuf s c = None /\ forall r, unanswered (rs s c r) = false /\ rs s c r <> Lost.
 Proof. intros. eapply answered_before_close; eauto using is_reachable. Qed.
 
+(* Window 1 (recv): Read has returned a request, numInvoke++ has not happened yet; the poller tests numInvoke = 0 and
+   closes. The request was read 4 steps before the close and is never answered. Replayed on the code (known finding). *)
+Definition race_read_then_count : list label :=
+  [LConnect 0; LSend 0 0; LShutdown; LAcceptExit; LReadBytes 0 0; LPollBegin; LPollCheck 0; LPollClose 0; LRead 0 0;
+   LStart 0 0; LFinish 0 0].
+(* Window 2 (poller): numInvoke = 0 tested, then a request is read and counted, then Close. *)
+Definition race_check_then_close : list label :=
+  [LConnect 0; LSend 0 0; LShutdown; LAcceptExit; LPollBegin; LPollCheck 0; LReadBytes 0 0; LRead 0 0; LPollClose 0;
+   LStart 0 0; LFinish 0 0].
+
+Theorem c12_answered_before_close_refuted :
+  (exists s, run 0 10 false init race_read_then_count = Some s /\ cst s 0 = CClosed /\ rs s 0 0 = Lost /\ raced s = true) /\
+  (exists s, run 0 10 false init race_check_then_close = Some s /\ cst s 0 = CClosed /\ rs s 0 0 = Lost /\ raced s = true) /\
+  ~ c12_answered_before_close_statement.
+Proof.
+  split; [eexists; split; [vm_compute; reflexivity|]; cbn; auto|].
+  split; [eexists; split; [vm_compute; reflexivity|]; cbn; auto|].
+  intros H. destruct (run 0 10 false init race_read_then_count) as [s|] eqn:E; [|vm_compute in E; discriminate].
+  assert (Hc : cst s 0 = CClosed) by (vm_compute in E; inversion E; reflexivity).
+  assert (Hl : rs s 0 0 = Lost) by (vm_compute in E; inversion E; reflexivity).
+  destruct (H _ _ _ _ _ E 0 Hc) as [_ Hx]. destruct (Hx 0) as [_ Hy]. contradiction.
+Qed.
+
+(* ... also with a pool, and the drained return is then taken with a request read and unanswered *)
+Theorem c12_drained_return_refuted_by_race :
+  exists s s', run 2 10 false init [LConnect 0; LSend 0 0; LShutdown; LAcceptExit; LReadBytes 0 0; LPollBegin; LPollCheck 0;
+                                    LPollClose 0; LRead 0 0] = Some s /\
+    step 2 10 false s LPollReturn = Some s' /\ ph s' = SRetDrained /\ unanswered (rs s' 0 0) = true /\ raced s' = true.
+Proof. eexists. eexists. split; [vm_compute; reflexivity|]. split; [vm_compute; reflexivity|]. cbn. auto. Qed.
+
 Theorem c12_close_step : forall W cap early ls s l s' c, run W cap early init ls = Some s ->
-  step W cap early s l = Some s' -> cst s c <> CClosed -> cst s' c = CClosed ->
-  (l = LPollClose c \/ l = LRecvClose c) /\ busy s c = [] /\
+  step W cap early s l = Some s' -> raced s' = false -> cst s c <> CClosed -> cst s' c = CClosed ->
+  (l = LPollClose c \/ l = LRecvClose c) /\ busy s c = [] /\ rdbuf s c = None /\
   forall r, unanswered (rs s c r) = false /\ rs s' c r = rs s c r.
 Proof. intros. eapply close_step_all_answered; eauto using is_reachable. Qed.
 
-(* a request that was read and is not answered — also one that only waits in JobQueue or in the dispatcher's hand —
-   is counted in numInvoke and keeps its connection open and in the table *)
+(* a request that was read and counted and is not answered — also one that only waits in JobQueue or in the
+   dispatcher's hand — is in numInvoke and its connection is in the table (any schedule); without a race the
+   connection is also still open *)
 Theorem c12_unanswered_keeps_connection : forall W cap early ls s, run W cap early init ls = Some s ->
   forall c r, unanswered (rs s c r) = true ->
-  In r (busy s c) /\ (cst s c = COpen \/ cst s c = CExited) /\ inmap s c = true.
+  In r (busy s c) /\ inmap s c = true /\ (raced s = false -> cst s c = COpen \/ cst s c = CExited).
 Proof.
-  intros W cap early ls s Hrun c r Hu. pose proof (reachable_Safe W cap early s (is_reachable _ _ _ _ _ Hrun)) as HS.
-  destruct (unanswered_conn_live s HS c r Hu) as [Hc [_ Hm]].
-  split; [apply (S_busy s HS); exact Hu | auto].
+  intros W cap early ls s Hrun c r Hu. pose proof (is_reachable _ _ _ _ _ Hrun) as Hr.
+  pose proof (reachable_Safe W cap early s Hr) as HS.
+  destruct (unanswered_in_table s HS c r Hu) as [_ Hm].
+  split; [apply (S_busy s HS); exact Hu|]. split; auto.
+  intros Hrc. destruct (unanswered_conn_live s HS (reachable_NoRace W cap early s Hr Hrc) c r Hu) as [Hc _]. exact Hc.
 Qed.
+
+(* a non-timeout Accept error leaves the server exactly as it was: the accept loop goes on *)
+Theorem c12_accept_error_is_noop : forall W cap early s s', step W cap early s LAcceptErr = Some s' -> s' = s.
+Proof.
+  intros W cap early s s' H. unfold step in H. destruct (negb (alive (ph s))); [discriminate|].
+  destruct (listen s =? 0); inversion H. reflexivity.
+Qed.
+Theorem c12_accept_error_enabled : forall W cap early s, alive (ph s) = true -> listen s = 0 ->
+  step W cap early s LAcceptErr = Some s.
+Proof. intros W cap early s Ha Hl. unfold step. rewrite Ha, Hl. reflexivity. Qed.
+
+(* CloseIdles reports "all closed" only as a conjunction over the whole table: whatever the schedule, the drained
+   return is taken only when EVERY accepted connection is closed (not: the last one visited) *)
+Theorem c12_drained_return_needs_all : forall W cap early ls s s', run W cap early init ls = Some s ->
+  step W cap early s LPollReturn = Some s' ->
+  ph s' = SRetDrained /\ forall c, In c (known s') -> cst s' c = CClosed.
+Proof. intros. eapply drained_return_all_closed; eauto using is_reachable. Qed.
 
 Theorem c12_progress : forall W cap ls s, (0 < cap)%N -> run W cap false init ls = Some s -> alive (ph s) = true ->
   forall c r, unanswered (rs s c r) = true -> exists l, pipeline_label l /\ step W cap false s l <> None.
@@ -1244,10 +1598,10 @@ Theorem c12_all_open_notified : forall W cap early ls s, run W cap early init ls
   forall c, inmap s c = true -> cst s c <> CClosed -> notified s c = true.
 Proof. intros. eapply all_open_notified; eauto using is_reachable. Qed.
 
-Theorem c12_drained_return_sound : forall W cap early ls s s', run W cap early init ls = Some s ->
+Theorem c12_drained_return_sound : forall W cap early ls s s', run W cap early init ls = Some s -> raced s = false ->
   step W cap early s LPollReturn = Some s' ->
   ph s' = SRetDrained /\ (forall c, In c (known s') -> cst s' c = CClosed) /\
-  (forall c r, unanswered (rs s' c r) = false).
+  (forall c r, unanswered (rs s' c r) = false) /\ (forall c, rdbuf s' c = None).
 Proof. intros. eapply drained_return_sound; eauto using is_reachable. Qed.
 
 Theorem c12_drained_return_notified : forall W cap early ls s s', run W cap early init ls = Some s ->
@@ -1260,7 +1614,7 @@ Theorem c12_progress_refuted_before_fix :
     forall ls' s', run 1 10 true s ls' = Some s' ->
       rs s' 0 1 = Queued /\ cst s' 0 <> CClosed /\ ph s' <> SRetDrained.
 Proof.
-  destruct progress_refuted_with_early_release as [s [Hr [Hu Hf]]].
+  destruct progress_refuted_with_early_release as [s [Hr [Hu [_ Hf]]]].
   exists release_before_drain, s. split; auto. split; auto.
   vm_compute in Hr. inversion Hr. reflexivity.
 Qed.
